@@ -11,9 +11,13 @@ import (
 	"context"
 	"fmt"
 	"os"
+	"os/signal"
 	"path/filepath"
+	"runtime/coverage"
 	"strconv"
+	"strings"
 	"sync"
+	"syscall"
 	"time"
 
 	"github.com/ozontech/file.d/cfg"
@@ -21,6 +25,7 @@ import (
 	"github.com/ozontech/file.d/pipeline"
 	"github.com/ozontech/file.d/plugin/action/join"
 	filein "github.com/ozontech/file.d/plugin/input/file"
+	k8sin "github.com/ozontech/file.d/plugin/input/k8s"
 	k8smeta "github.com/ozontech/file.d/plugin/input/k8s/meta"
 	"github.com/ozontech/file.d/test"
 	"github.com/prometheus/client_golang/prometheus"
@@ -35,6 +40,11 @@ type helperCfg struct {
 	// optional items 8..: workers_count (0 = "2"), should_watch_file_changes, remove_after (ms), max_event_size,
 	// cut_off_event_by_limit, k8s meta (the built-in meta templates of the k8s input: k8s_pod = {{ .pod_name }} ...)
 	workers, watchChanges, removeAfterMs, maxEventSize, cutOff, k8sMeta int
+	// items 14..: paths (0 = watching_dir; 1 = paths.include with two base directories + paths.exclude, 3 = the same with the
+	// second base directory behind a symlink; 2 = the deprecated
+	// filename_pattern "*.log" + dir_pattern "d*"), front (0 = file input + json decoder; 1 = the k8s input in front of it:
+	// k8s.Plugin.Start -> SuggestDecoder(CRI) with decoder "auto", built-in k8s meta templates; lines are in CRI format)
+	paths, front int
 }
 
 func decodeCfg(v hx.Sx) helperCfg {
@@ -46,7 +56,8 @@ func decodeCfg(v hx.Sx) helperCfg {
 		return 0
 	}
 	return helperCfg{persist: g(0), procs: g(1), join: g(2), outKind: g(3), asyncMs: g(4), maintMs: g(5), readBuf: g(6), antispam: g(7),
-		workers: g(8), watchChanges: g(9), removeAfterMs: g(10), maxEventSize: g(11), cutOff: g(12), k8sMeta: g(13)}
+		workers: g(8), watchChanges: g(9), removeAfterMs: g(10), maxEventSize: g(11), cutOff: g(12), k8sMeta: g(13),
+		paths: g(14), front: g(15)}
 }
 
 type scriptedOut struct {
@@ -68,6 +79,21 @@ func (o *scriptedOut) rec(s string) {
 func evInt(e *pipeline.Event, f string) int {
 	n := e.Root.Dig(f)
 	if n == nil {
+		// CRI decoder: the event is {log, time, stream}; the line's own JSON is the text of "log"
+		if l := e.Root.Dig("log"); l != nil {
+			txt := l.AsString()
+			key := `"` + f + `":`
+			if i := strings.Index(txt, key); i >= 0 {
+				v := 0
+				j := i + len(key)
+				for ; j < len(txt) && txt[j] >= '0' && txt[j] <= '9'; j++ {
+					v = v*10 + int(txt[j]-'0')
+				}
+				if j > i+len(key) {
+					return v
+				}
+			}
+		}
 		return -1
 	}
 	return n.AsInt()
@@ -133,6 +159,7 @@ func helperMain() {
 		os.Exit(2)
 	}
 	logger.Level.SetLevel(zapcore.FatalLevel)
+	covDump()
 	dir, run := os.Args[2], os.Args[3]
 	hc := decodeCfg(hx.MustParse(os.Args[4]))
 	evTimeout := int(hx.Int(hx.MustParse(os.Args[5])))
@@ -151,6 +178,9 @@ func helperMain() {
 		Metric:       &pipeline.MetricSettings{HoldDuration: time.Minute, MaxLabelValueLength: 100},
 		MaxEventSize: hc.maxEventSize, CutOffEventByLimit: hc.cutOff == 1,
 	}
+	if hc.front == 1 {
+		settings.Decoder = "auto" // the k8s input suggests CRI
+	}
 	// fatal messages only, on stderr (child<run>.err): zap's Fatal exits the process even through a Nop logger, and a silent
 	// exit(1) cannot be told from anything else
 	lg := zap.New(zapcore.NewCore(zapcore.NewConsoleEncoder(zap.NewDevelopmentEncoderConfig()), zapcore.Lock(os.Stderr), zapcore.FatalLevel))
@@ -158,7 +188,8 @@ func helperMain() {
 	if hc.procs <= 1 {
 		p.DisableParallelism()
 	}
-	input, _ := filein.Factory()
+	var input pipeline.AnyPlugin
+	input, _ = filein.Factory()
 	mode := "async"
 	if hc.persist == 1 {
 		mode = "sync"
@@ -184,9 +215,34 @@ func helperMain() {
 		config.Meta = cfg.MetaTemplates{"k8s_pod": "{{ .pod_name }}", "k8s_namespace": "{{ .namespace }}",
 			"k8s_container": "{{ .container_name }}", "k8s_container_id": "{{ .container_id }}"}
 	}
-	test.NewConfig(config, map[string]int{"gomaxprocs": 2})
+	switch hc.paths {
+	case 1, 3: // (3: the parent made <dir>/watch2 a symlink to <dir>/real2: watcher.start resolves the links of a base directory)
+		// the current format: glob patterns. Two base directories (the watcher watches their common parent, the world
+		// directory, recursively) and an exclude pattern; watching_dir is not used
+		config.WatchingDir = ""
+		config.Paths = filein.Paths{
+			Include: []string{filepath.Join(dir, "watch", "**", "*.log"), filepath.Join(dir, "watch2", "*.log")},
+			Exclude: []string{filepath.Join(dir, "watch", "**", "x*.log")},
+		}
+	case 2: // the deprecated format with both patterns set: only <watch>/d*/*.log is watched
+		config.FilenamePattern = "*.log"
+		config.DirPattern = "d*"
+	}
+	var anyCfg pipeline.AnyConfig = config
+	typ := "file"
+	if hc.front == 1 {
+		k8smeta.DisableMetaUpdates = true // no cluster: never ask the API server for pod data
+		input, _ = k8sin.Factory()
+		config.Meta = cfg.MetaTemplates{"fname": "{{ .filename }}"}
+		kc := &k8sin.Config{WatchingDir: config.WatchingDir, OffsetsFile: config.OffsetsFile, FileConfig: *config,
+			K8sMeta: cfg.MetaTemplates{"pod_again": "{{ .pod_name }}"}}
+		test.NewConfig(kc, map[string]int{"gomaxprocs": 2})
+		anyCfg, typ = kc, "k8s"
+	} else {
+		test.NewConfig(config, map[string]int{"gomaxprocs": 2})
+	}
 	p.SetInput(&pipeline.InputPluginInfo{
-		PluginStaticInfo:  &pipeline.PluginStaticInfo{Type: "file", Config: config},
+		PluginStaticInfo:  &pipeline.PluginStaticInfo{Type: typ, Config: anyCfg},
 		PluginRuntimeInfo: &pipeline.PluginRuntimeInfo{Plugin: input},
 	})
 	if hc.join == 1 {
@@ -209,5 +265,30 @@ func helperMain() {
 	})
 	p.Start()
 	out.rec("R\n")
-	select {}
+	// kill mode 5 of the parent: SIGTERM = the orderly shutdown (Pipeline.Stop -> input Stop: the workers get their nil jobs,
+	// jobProvider.stop saves the last known offsets, the watcher is closed). "S" marks that Stop returned.
+	term := make(chan os.Signal, 1)
+	signal.Notify(term, syscall.SIGTERM)
+	<-term
+	p.Stop()
+	out.rec("S\n")
+	os.Exit(0)
+}
+
+// covDump is a measurement aid (coverage builds only, C03_COVDUMP=<dir>): coverage counters are written at a normal exit,
+// which a SIGKILLed helper never reaches. With the variable set the parent sends SIGUSR1 just before the SIGKILL and the
+// helper dumps its counters and exits at once (no Stop, no final offsets save: for the property this is still a kill).
+func covDump() {
+	d := os.Getenv("C03_COVDUMP")
+	if d == "" {
+		return
+	}
+	ch := make(chan os.Signal, 1)
+	signal.Notify(ch, syscall.SIGUSR1)
+	go func() {
+		<-ch
+		_ = coverage.WriteMetaDir(d)
+		_ = coverage.WriteCountersDir(d)
+		os.Exit(0)
+	}()
 }
